@@ -38,7 +38,7 @@ Definition over (cfg : config) (total accepts : Z) : Prop :=
 
 (* ---- the previous throttled admission *)
 
-(* time of the last decision that admitted a call while throttling (0: none) *)
+(* time of the last decision that let a call through while throttling (0: none) *)
 Definition last_throttled (ds : list (Z * verdict)) : Z :=
   fold_left (fun acc d => if throttled_pass (snd d) then fst d else acc) ds 0.
 
